@@ -83,9 +83,16 @@ try:
     # the checks
     det = {}
     for p in [prop] + also:
-        c = subprocess.run([os.path.join(V, "run.sh"), p, tier], cwd=V, env=dict(env, VERIF_REPO=wt, VERIF_EVIDENCE_DIR="/var/tmp/verif-selftest-evidence", VERIF_REPLAY_DIR="/var/tmp/verif-selftest-replays"), capture_output=True, text=True, errors="replace")
+        dump = "/var/tmp/seeddump-%d.json" % os.getpid()
+        c = subprocess.run([os.path.join(V, "run.sh"), p, tier], cwd=V, env=dict(env, VERIF_REPO=wt, VERIF_DUMP=dump, VERIF_EVIDENCE_DIR="/var/tmp/verif-selftest-evidence", VERIF_REPLAY_DIR="/var/tmp/verif-selftest-replays"), capture_output=True, text=True, errors="replace")
         sigs = re.findall(r"signature=(.*)", c.stdout)
         det[p] = {"rc": c.returncode, "violation": ("VIOLATION property=" + p) in c.stdout, "signatures": sigs[:3]}
+        try:
+            # every signature the run met (the VIOLATION lines show the five simplest only)
+            det[p]["all_signatures"] = sorted({v["signature"] for v in (json.load(open(dump)) or [])})[:400]
+            os.remove(dump)
+        except Exception:
+            pass
     res["checks"] = det
     res["detected"] = det[prop]["violation"]
 finally:
